@@ -2032,10 +2032,16 @@ impl<'a> CompilerState<'a> {
                         local_variables.push(s);
                     }
                     self.in_scope_variables.push(map);
+                    // A function declared earlier by a prototype keeps its position: taking a new
+                    // one here could collide with the next function's and leave the order to chance
+                    let order = match self.functions.get(&name) {
+                        Some(f) => f.order,
+                        None => self.functions.len(),
+                    };
                     self.functions.insert(
                         name.clone(),
                         Function {
-                            order: self.functions.len(),
+                            order,
                             inline,
                             bank,
                             code: None,
